@@ -77,15 +77,17 @@ def clamp_name(name: str, limit: int = 253) -> str:
 
 
 @st.composite
-def name_pool(draw, min_size: int = 2, max_size: int = 8, max_label: int = 70, long_names: bool = True) -> List[str]:
+def name_pool(draw, min_size: int = 2, max_size: int = 8, max_label: int = 70, long_names: bool = True, root: bool = False) -> List[str]:
     """Names built from shared suffixes so that suffix/prefix/case-variant sharing is the norm."""
     pool: List[str] = []
+    if root and draw(st.integers(0, 5)) == 0:
+        pool.append('.')      # the root: fully qualified, no labels at all (an SRV target '.' means "service not available")
     n = draw(st.integers(min_size, max_size))
     if max_label > 63 and draw(st.integers(0, 7)):
         max_label = 63   # oversize labels (expected rejection) only in one case out of eight
     for _ in range(n):
-        if pool and draw(st.integers(0, 2)):
-            base = draw(st.sampled_from(pool))
+        if [x for x in pool if x != '.'] and draw(st.integers(0, 2)):
+            base = draw(st.sampled_from([x for x in pool if x != '.']))
             labels = base[:-1].split('.')
             cut = draw(st.integers(0, len(labels) - 1))
             suffix = '.'.join(labels[cut:]) + '.'
